@@ -76,6 +76,10 @@ def _attr_call(n, attr_chain_suffix):
 
 
 def rule_B1(run, prog):
+    """Protocol of the context manager, with metavariables for local names ($X): the rule
+    follows the values (which stack entry is popped, which matrix is inverted, which basis id
+    objects are re-tagged with), not the spelling of the local variables."""
+    from .. import pat
     rid = "C04-B1"
     ent = prog.func(MGR + "eigenbasis_of.__enter__")
     ext = prog.func(MGR + "eigenbasis_of.__exit__")
@@ -85,94 +89,109 @@ def rule_B1(run, prog):
         run.obligation(rid, construct, ok, key=key, message=msg, loc=f.loc(),
                        sample=sample or {"construct": construct, "clause": key})
 
-    # __enter__: exactly one unconditional set_new_basis
+    # ---- __enter__
+    etl = _top_level(ent)
+    etx = [norm(s) for s in etl]
     calls = [n for n in walk_no_nested(ent.node) if _attr_call(n, "manager.set_new_basis")]
-    top = _is_toplevel_stmt_containing(ent, lambda n: _attr_call(n, "manager.set_new_basis"))
-    ob("eigenbasis_of.__enter__", len(calls) == 1 and len(top) == 1, "one-push",
-       "__enter__ must call manager.set_new_basis exactly once, unconditionally "
-       "(found %d call(s), %d unconditional)" % (len(calls), len(top)), ent)
-    arg_ok = False
-    if calls:
-        a = calls[0].args[0] if calls[0].args else None
-        # the pushed matrix must come from the operator of this context
-        src = None
-        for st in _top_level(ent):
-            if isinstance(st, ast.Assign) and isinstance(a, ast.Name) and \
-                    any(isinstance(t, ast.Name) and t.id == a.id for t in st.targets):
-                src = st.value
-        arg_ok = src is not None and norm(src) == "self.op.get_diagonalization_matrix()"
-    ob("eigenbasis_of.__enter__", arg_ok, "push-diagonalizer",
-       "the transformation pushed must be self.op.get_diagonalization_matrix()", ent)
+    env, pos = pat.seq(etx, ["$SS = self.op.get_diagonalization_matrix()", "self.manager.set_new_basis($SS)"])
+    ob("eigenbasis_of.__enter__", len(calls) == 1 and env is not None, "one-push",
+       "__enter__ must push, exactly once and unconditionally, the diagonalisation matrix of its operator "
+       "(manager.set_new_basis(op.get_diagonalization_matrix())): %s" % (pos if env is None else "ok"), ent)
     ob("eigenbasis_of.__enter__", not [n for n in walk_no_nested(ent.node) if isinstance(n, (ast.Return, ast.Raise))],
        "no-early-exit", "__enter__ must not return/raise before the push", ent)
-    # the operator itself is brought to the current basis first
     ob("eigenbasis_of.__enter__", any(_attr_call(n, "manager.transform_to_current_basis")
                                       for n in walk_no_nested(ent.node)), "op-current",
        "__enter__ must bring the operator to the current basis before diagonalising", ent)
 
-    # set_new_basis: three pushes, new id = current + 1
-    body = [norm(s) for s in _top_level(snb)]
-    need = ["self.basis_stack.append(nb)", "self.basis_transformations.append(SS)",
-            "self.basis_registered[nb] = []"]
-    for nd in need:
-        ob("Manager.set_new_basis", nd in body, "push:" + nd,
-           "set_new_basis must perform '%s' unconditionally" % nd, snb)
-    ob("Manager.set_new_basis", "nb = self.get_current_basis() + 1" in body, "fresh-id",
-       "new basis id must be current id + 1 (unique on the stack)", snb)
+    # ---- set_new_basis: three pushes under a fresh id = current + 1
+    stx = [norm(s) for s in _top_level(snb)]
+    env, pos = pat.seq(stx, ["$NB = self.get_current_basis() + 1", "self.basis_stack.append($NB)"])
+    ob("Manager.set_new_basis", env is not None, "fresh-id",
+       "new basis id must be current id + 1 and pushed on the basis stack", snb)
+    env = env or {}
+    prm = [a.arg for a in snb.node.args.args if a.arg != "self"]
+    e2 = dict(env)
+    if prm:
+        e2["P"] = prm[0]
+    ob("Manager.set_new_basis", pat.find(stx, "self.basis_transformations.append($P)", e2)[0] is not None,
+       "push-transformation", "the transformation passed in must be pushed on basis_transformations", snb)
+    ob("Manager.set_new_basis", pat.find(stx, "self.basis_registered[$NB] = []", e2)[0] is not None,
+       "push-registry", "an empty registry must be created for the new basis id", snb)
 
-    # __exit__
+    # ---- __exit__
     tl = _top_level(ext)
-    tln = [norm(s) for s in tl]
+    tx = [norm(s) for s in tl]
     pops = [n for n in walk_no_nested(ext.node) if _attr_call(n, "basis_stack.pop")]
     popt = [n for n in walk_no_nested(ext.node) if _attr_call(n, "basis_transformations.pop")]
-    ob("eigenbasis_of.__exit__", len(pops) == 1 and "bb = self.manager.basis_stack.pop()" in tln,
-       "pop-stack", "__exit__ must pop basis_stack exactly once, unconditionally", ext)
-    ob("eigenbasis_of.__exit__", len(popt) == 1 and "SS = self.manager.basis_transformations.pop()" in tln,
-       "pop-transformations", "__exit__ must pop basis_transformations exactly once, unconditionally", ext)
+    env = {}
+    k1, env = pat.find(tx, "$BB = self.manager.basis_stack.pop()", env)
+    ob("eigenbasis_of.__exit__", len(pops) == 1 and k1 is not None, "pop-stack",
+       "__exit__ must pop basis_stack exactly once, unconditionally", ext)
+    k2, env = pat.find(tx, "$SS = self.manager.basis_transformations.pop()", env)
+    ob("eigenbasis_of.__exit__", len(popt) == 1 and k2 is not None, "pop-transformations",
+       "__exit__ must pop basis_transformations exactly once, unconditionally", ext)
     ob("eigenbasis_of.__exit__", not [n for n in walk_no_nested(ext.node)
                                       if isinstance(n, (ast.Return, ast.Raise, ast.Try))],
        "no-early-exit", "__exit__ must not return a value (would swallow exceptions), raise, or "
                         "wrap the restoration in try/except", ext)
-    ob("eigenbasis_of.__exit__", "del self.manager.basis_registered[bb]" in tln, "registry-deleted",
-       "__exit__ must delete the registry of the basis it leaves, unconditionally", ext)
-    ob("eigenbasis_of.__exit__", "S1 = numpy.linalg.inv(SS)" in tln, "inverse",
+    # the new top of the stack (after the pop)
+    knb = None
+    for form in (["$BSS = len(self.manager.basis_stack)", "$NB = self.manager.basis_stack[$BSS - 1]"],
+                 ["$NB = self.manager.basis_stack[len(self.manager.basis_stack) - 1]"],
+                 ["$NB = self.manager.basis_stack[-1]"], ["$NB = self.manager.get_current_basis()"]):
+        e, pos = pat.seq(tx, form, env)
+        if e is not None and k1 is not None and pos[0] > k1:
+            env, knb = e, pos[-1]
+            break
+    ob("eigenbasis_of.__exit__", knb is not None, "new-top",
+       "the basis objects are re-tagged with must be the top of the stack after the pop", ext)
+    ks1, env = pat.find(tx, "$S1 = numpy.linalg.inv($SS)", env)
+    ob("eigenbasis_of.__exit__", ks1 is not None and k2 is not None and ks1 > k2, "inverse",
        "__exit__ must transform back with the inverse of the popped transformation", ext)
-    ob("eigenbasis_of.__exit__", "self.manager.remove_current_basis_operator()" in tln, "basis-op-removed",
+    kdel, env = pat.find(tx, "del self.manager.basis_registered[$BB]", env)
+    ob("eigenbasis_of.__exit__", kdel is not None, "registry-deleted",
+       "__exit__ must delete the registry of the basis it leaves, unconditionally", ext)
+    ob("eigenbasis_of.__exit__", "self.manager.remove_current_basis_operator()" in tx, "basis-op-removed",
        "__exit__ must remove the current basis operator", ext)
+    # restore loop
     loops = [s for s in tl if isinstance(s, ast.For)]
     ok_loop = False
-    detail = ""
-    if len(loops) == 1 and norm(loops[0].iter) == "operators" and \
-            "operators = self.manager.basis_registered[bb]" in tln:
-        lp = loops[0]
-        v = lp.target.id
-        lb = [norm(s) for s in lp.body]
-        c1 = "%s.set_current_basis(nb)" % v in lb
-        c2 = any(isinstance(s, ast.If) and norm(s.test) == "not %s.is_basis_protected" % v
-                 and [norm(x) for x in s.body] == ["%s.transform(S1, inv=SS)" % v] and not s.orelse
-                 for s in lp.body)
-        c3 = any(isinstance(s, ast.If) and norm(s.test) == "nb != 0"
-                 and any(_attr_call(n, "manager.register_with_basis") for n in ast.walk(s))
-                 for s in lp.body)
-        ok_loop = c1 and c2 and c3
-        detail = "retag=%s transform-back=%s reregister=%s" % (c1, c2, c3)
+    detail = "no loop over the registered objects"
+    kloop = None
+    for lp in loops:
+        it = norm(lp.iter)
+        e = dict(env)
+        reg = pat.match("self.manager.basis_registered[$BB]", it, e)
+        if reg is None and isinstance(lp.iter, ast.Name):
+            kk, e2 = pat.find(tx, "%s = self.manager.basis_registered[$BB]" % lp.iter.id, e)
+            reg = e2 if kk is not None else None
+        if reg is None or not isinstance(lp.target, ast.Name):
+            continue
+        e = dict(reg)
+        e["OP"] = lp.target.id
+        lb = [norm(s_) for s_ in lp.body]
+        c1 = pat.find(lb, "$OP.set_current_basis($NB)", e)[0] is not None
+        c2 = any(isinstance(s_, ast.If) and pat.match("not $OP.is_basis_protected", norm(s_.test), e) is not None
+                 and len(s_.body) == 1 and pat.match("$OP.transform($S1, inv=$SS)", norm(s_.body[0]), e) is not None
+                 and not s_.orelse for s_ in lp.body)
+        c3 = any(isinstance(s_, ast.If) and pat.match("$NB != 0", norm(s_.test), e) is not None
+                 and any(isinstance(n, ast.Call) and pat.match("self.manager.register_with_basis($NB, $OP)", norm(n), e)
+                         is not None for n in ast.walk(s_)) for s_ in lp.body)
+        esc = [x for x in ast.walk(lp) if isinstance(x, (ast.Break, ast.Continue))]
+        ok_loop = c1 and c2 and c3 and not esc
+        detail = "retag=%s transform-back=%s reregister=%s no-escape=%s" % (c1, c2, c3, not esc)
+        kloop = tl.index(lp)
+        break
     ob("eigenbasis_of.__exit__", ok_loop, "restore-loop",
        "__exit__ must, for every registered object: transform it back with (S1, inv=SS) unless "
        "protected, re-tag it with the new top basis id unconditionally, and re-register it one "
        "level up when that level is not 0 (%s)" % detail, ext)
-    ob("eigenbasis_of.__exit__", "nb = self.manager.basis_stack[bss - 1]" in tln and
-       "bss = len(self.manager.basis_stack)" in tln, "new-top",
-       "the basis objects are re-tagged with must be the new top of the stack", ext)
-    flag = [s for s in tl if isinstance(s, ast.If) and norm(s.test) == "len(self.manager.basis_stack) == 1"
-            and [norm(x) for x in s.body] == ["self.manager._in_eigenbasis_of_context = False"]]
+    flag = [s_ for s_ in tl if isinstance(s_, ast.If) and norm(s_.test) == "len(self.manager.basis_stack) == 1"
+            and [norm(x) for x in s_.body] == ["self.manager._in_eigenbasis_of_context = False"] and not s_.orelse]
     ob("eigenbasis_of.__exit__", len(flag) == 1, "flag-cleared",
        "_in_eigenbasis_of_context must be cleared iff the stack is back to depth 1", ext)
-    # order: pops before loop before registry deletion
-    def pos(text):
-        return tln.index(text) if text in tln else -1
-    order = [pos("bb = self.manager.basis_stack.pop()"), pos("S1 = numpy.linalg.inv(SS)"),
-             tl.index(loops[0]) if loops else -1, pos("del self.manager.basis_registered[bb]")]
-    ob("eigenbasis_of.__exit__", all(o >= 0 for o in order) and order == sorted(order), "order",
+    order = [k1, ks1, kloop, kdel]
+    ob("eigenbasis_of.__exit__", all(o is not None for o in order) and order == sorted(order), "order",
        "__exit__ must pop, invert, restore objects and only then delete the registry", ext)
 
 
